@@ -28,11 +28,21 @@
   * `C06_rewritten_events`: the same for the REWRITTEN function, through the refinement theorem, and
     `C06_generated_events` with no hypothesis about hosts or states left (initial state of a generated program);
   * `C06_enter_exactly_once`: hence exactly one `#enter` event per activation.
-  Not proved: that `#value` is delivered exactly once per normal completion (it is FALSE: findings F7c / F7d)
-  and the pairing of loop markers over whole runs — the stream grammar oracle of the check explores them.
+  * `C06_loop_markers_balanced` (Proofs/Balance.lean, a relational induction over statements: what a statement
+    appends to the recorded names never goes below the marker depth it started at and, unless the activation is
+    abandoned, comes back to it; expressions, targets and bindings record no marker — an instance of the
+    invariant theorem): for every function of the core fragment, capture set that takes `#enter / #exit /
+    #error` and treats `#loop_y` and `#endloop_y` alike, input, driver script and variable `x`: along the whole
+    activation the depth of `#loop_x … #endloop_x` never goes below zero and is zero at the end, however the
+    iteration and the activation are left (fall-through, continue, break, return, raise, generator close);
+    `C06_rewritten_loop_markers_balanced` for the REWRITTEN function, `C06_generic_capture_symmetric` shows
+    the hypothesis on the capture set holds for the generic capture.
+  Not proved: that `#value` is delivered exactly once per normal completion (it is FALSE: findings F7c / F7d);
+  the pairing of `#yield` / `#receive` over whole runs is explored by the stream grammar oracle.
 -/
 import PteraModel.Proofs.PyLiteSpec
 import PteraModel.Proofs.InvEvents
+import PteraModel.Proofs.Balance
 namespace Ptera.Props.C06
 open Ptera.Py Ptera.Sem
 
@@ -207,6 +217,45 @@ theorem C06_enter_exactly_once (sc : String → Bool) (cfg : Cfg)
   | brk => simp [metaEv]
   | cont => simp [metaEv]
   | ret v => simp [metaEv]
+
+/-- loop markers are balanced along a whole activation of the reference semantics, for every variable -/
+theorem C06_loop_markers_balanced (sc : String → Bool) (cfg : Cfg)
+    (hE : shouldInstr cfg "#enter" ["enter"] = true) (hX : shouldInstr cfg "#exit" ["exit"] = true)
+    (hEr : shouldInstr cfg "#error" [] = true)
+    (hsym : ∀ y, shouldInstr cfg ("#endloop_" ++ y) [] = shouldInstr cfg ("#loop_" ++ y) [])
+    (fuel : Nat) (f : FunDef) (hf : coreF f = true) (st0 : St PyLite.World PyLite.HState)
+    (h0 : MarkerFree PyLite.Good PyLite.WInv st0) (x : String) :
+    ∃ w, evNames (runRef (recEnv sc cfg) fuel f st0).2 = evNames st0 ++ w ∧ Open x w ∧
+      (ctlFatal (runRef (recEnv sc cfg) fuel f st0).1 = false → Neutral x w) :=
+  loop_markers_balanced sc cfg hE hX hEr hsym fuel f hf st0 h0 x
+
+/-- … and along an activation of the rewritten function -/
+theorem C06_rewritten_loop_markers_balanced (cfg : Cfg)
+    (hE : shouldInstr cfg "#enter" ["enter"] = true) (hX : shouldInstr cfg "#exit" ["exit"] = true)
+    (hEr : shouldInstr cfg "#error" [] = true)
+    (hsym : ∀ y, shouldInstr cfg ("#endloop_" ++ y) [] = shouldInstr cfg ("#loop_" ++ y) [])
+    (fuel : Nat) (f : FunDef) (hf : coreF f = true) (st0 : St PyLite.World PyLite.HState)
+    (h0 : MarkerFree PyLite.Good PyLite.WInv st0) (hext : ∀ y ∈ (collect f).external, st0.loc y = none)
+    (x : String) :
+    ∃ w, evNames (runInstr (ctxOf PyLite.hostObs cfg f fuel).envI fuel (instrument cfg f) st0).2 = evNames st0 ++ w
+      ∧ Open x w
+      ∧ (ctlFatal (runInstr (ctxOf PyLite.hostObs cfg f fuel).envI fuel (instrument cfg f) st0).1 = false → Neutral x w) := by
+  obtain ⟨e1, o1⟩ := instrument_refines PyLite.hostObs cfg f fuel hf
+    (libSpec_of_host PyLite.hostObs PyLite.hostSpecObs cfg f fuel hf) st0 hext
+  unfold evNames
+  rw [e1, o1.hs]
+  exact loop_markers_balanced (scopeRef cfg f) cfg hE hX hEr hsym fuel f hf st0 h0 x
+
+/-- the hypothesis on the capture set holds for the generic capture (everything is captured) -/
+theorem C06_generic_capture_symmetric (y : String) :
+    shouldInstr [⟨none, none⟩] ("#endloop_" ++ y) [] = shouldInstr [⟨none, none⟩] ("#loop_" ++ y) [] := by
+  simp [shouldInstr, checkEl, matchTag]
+
+/-- the depth function on the events of the example below: balanced, and it does go up (non-vacuity) -/
+example : depth "i" 0 ["#enter", "T", "a", "#loop_i", "i", "b", "#endloop_i", "#loop_i", "i", "b", "#endloop_i",
+    "#value", "#exit"] = some 0
+    ∧ depth "i" 0 ["#enter", "T", "a", "#loop_i", "i", "b"] = some 1
+    ∧ depth "i" 0 ["#endloop_i"] = none := by decide
 
 /-- `def f(a): for i in T(1, 'tuple', 2): b = i` followed by `return a` -/
 def sample : FunDef :=
